@@ -249,6 +249,19 @@ func checkExtendedRealm(r *Reporter, p *Prog, pkg, typ string) {
 		}
 		return true
 	})
+	if !ok {
+		// a wrapper may instead delegate to the wrapped store's WithExtendedRealm exactly as its own
+		// WithRealm delegates to the wrapped store's WithRealm: the two methods have the same text up
+		// to that one method name (the wrapped store extends its own realm, which is the wrapper's)
+		if wr := p.FuncDecl(pkg, typ, "WithRealm"); wr != nil {
+			a, _ := normalisedBody(info, wr)
+			b, _ := normalisedBody(info, fd)
+			if a != "" && strings.Count(a, "(WithRealm)") == 1 && strings.Replace(a, "(WithRealm)", "(WithExtendedRealm)", 1) == b {
+				r.Pass("realm/extended", key, p.posStr(fd.Pos()), "delegates to the wrapped store's WithExtendedRealm exactly as WithRealm delegates to its WithRealm")
+				return
+			}
+		}
+	}
 	if ok {
 		r.Pass("realm/extended", key, p.posStr(fd.Pos()), "WithRealm(ConcatBytes(own realm, extension)): realm first, extension second")
 	} else {
